@@ -377,3 +377,27 @@ PROPS["C10"] = {
     "trusted": CANON_TRUST,
     "assumptions": ["I-JSON domain: no duplicate keys, every number's nearest double finite"],
 }
+
+_m("C09", "Proved for every I-JSON value with scalar member names: the compact text of canonicalize(v) equals the RFC 8785 reference "
+          "serializer jcs (members sorted by UTF-16 code units, strings minimally escaped, no white space, numbers rendered by the "
+          "ECMAScript digit search); jcs is defined exactly when every number is renderable; member names come out strictly "
+          "increasing in UTF-16 order. Number half (Flocq): nearest_double is the IEEE-754 round-to-nearest-even binary64 of the exact "
+          "decimal; the rendering reads back to the same double, its digit string is a round-tripping candidate and no examined "
+          "shorter candidate round-trips; all 26 rows of RFC 8785 Appendix B are checked inside Coq. The implementation's own float "
+          "conversions (std str::parse::<f64>, ryu-js) are dependencies: their agreement with the reference conversion is what the "
+          "correspondence run validates, on seeded decimals around every rounding and notation boundary.",
+   "Axioms: exactly the four standard-library axioms Flocq's theorems use (ClassicalDedekindReals.sig_forall_dec, sig_not_dec, "
+   "FunctionalExtensionality.functional_extensionality_dep, Classical_Prop.classic); the structural theorems are axiom-free. Not proved: "
+   "that 17 digits always suffice (the reference returns None otherwise, which the run would report) and that the two examined "
+   "candidates per digit count are the only relevant ones (full ECMAScript minimality).",
+   "Coq proof (insertion sort by a total order = sorted-members spec; Flocq-backed correct rounding and round trip) + correspondence of canonical bytes with jcs")
+_m("C10", "Proved: canonicalization is idempotent (for the reference conversion unconditionally; for any conversion that is idempotent on "
+          "spellings); values equal up to member order at any depth have the same canonical form and text; the canonical form is the "
+          "value with only member order and number spellings changed (PermEq to map_numbers); every number keeps its double (negative "
+          "zero renders as 0); numerically equal spellings (same sign and exact decimal value: exponent shifting, trailing zeros, E/e, "
+          "+, leading zeros in the exponent) render identically; the nearest double depends only on the exact value; the re-indexed "
+          "object satisfies the C06 invariant and answers every query as a scan. White space and escape spelling are handled by C02 "
+          "(documents denoting the same value parse to the same value). Correspondence compares canonical values, idempotence, "
+          "shuffles, respellings, and the rebuilt index buckets.",
+   "Axioms: the four Flocq/standard-library axioms for the number theorems; structural theorems axiom-free. Vec::sort_by trusted as a stable sort.",
+   "Coq proof (sorted permutation is unique for a total order; Flocq value-dependence of rounding; round trip of the rendering) + correspondence on canonical values, shuffles, respellings and index dumps")
